@@ -193,3 +193,37 @@ Definition norm_props (pkt : N) (m : mods) (p : props) (n : N) : props :=
     (can 41 && p_sub_id_available_flag p)
     (if can 42 && p_shared_sub_available_flag p then p_shared_sub_available p else 0)
     (can 42 && p_shared_sub_available_flag p).
+
+(* the fields of a packet the codec carries for its type, as the property lists them *)
+Definition same_fields (pk q : packet) : Prop :=
+  let v := pk_version pk in
+  let c := pk_connect pk in
+  let d := pk_connect q in
+  match fh_type (pk_fh pk) with
+  | 1 => c_protocol_name d = c_protocol_name c /\ c_clean d = c_clean c /\ c_keepalive d = c_keepalive c /\
+         c_client_id d = c_client_id c /\ c_will_flag d = c_will_flag c /\
+         c_username_flag d = c_username_flag c /\ c_password_flag d = c_password_flag c /\
+         (c_will_flag c = true ->
+            c_will_topic d = c_will_topic c /\ c_will_payload d = c_will_payload c /\
+            c_will_qos d = c_will_qos c /\ c_will_retain d = c_will_retain c /\
+            (v = 5 -> c_will_props d = norm_props WILLPROPS (pk_mods pk) (c_will_props c) 0)) /\
+         (c_username_flag c = true -> c_username d = c_username c) /\
+         (c_password_flag c = true -> c_password d = c_password c)
+  | 2 => pk_session_present q = pk_session_present pk /\ pk_reason_code q = pk_reason_code pk
+  | 3 => pk_topic q = pk_topic pk /\ pk_payload q = pk_payload pk /\
+         (0 < fh_qos (pk_fh pk) -> pk_packet_id q = pk_packet_id pk)
+  | 4 | 5 | 6 | 7 => pk_packet_id q = pk_packet_id pk /\ (v = 5 -> pk_reason_code q = pk_reason_code pk)
+  | 8 => pk_packet_id q = pk_packet_id pk /\
+         map s_filter (pk_filters q) = map s_filter (pk_filters pk) /\
+         map s_qos (pk_filters q) = map s_qos (pk_filters pk) /\
+         (v = 5 -> map s_no_local (pk_filters q) = map s_no_local (pk_filters pk) /\
+                   map s_rap (pk_filters q) = map s_rap (pk_filters pk) /\
+                   map s_retain_handling (pk_filters q) = map s_retain_handling (pk_filters pk))
+  | 9 => pk_packet_id q = pk_packet_id pk /\ pk_reason_codes q = pk_reason_codes pk
+  | 10 => pk_packet_id q = pk_packet_id pk /\ map s_filter (pk_filters q) = map s_filter (pk_filters pk)
+  | 11 => pk_packet_id q = pk_packet_id pk /\ (v = 5 -> pk_reason_codes q = pk_reason_codes pk)
+  | 14 => v = 5 -> pk_reason_code q = pk_reason_code pk
+  | 15 => pk_reason_code q = pk_reason_code pk
+  | _ => True
+  end.
+
